@@ -75,6 +75,7 @@ class Engine:
         self.quiescences = 0
         self.notify_counts = {}
         self.diverted = False
+        self.stepper_cancelled = 0
         self.transitions = []  # (from, to) from ENTERED_STATE callbacks
         self.samples = []  # (tick, state, paused, terminated, future_done) on change
         self.last_sample = None
@@ -337,6 +338,18 @@ class Engine:
                 rec.result = proc.fail(exc, None)
             elif kind == 'cancel':
                 rec.result = proc.future().cancel()
+            elif kind == 'cancel_stepper':
+                # whoever runs the process gives up (e.g. asyncio.wait_for(proc.step_until_terminated(), t) timing out): the task
+                # that steps the process is cancelled, the process itself stays live and is picked up again later
+                rec.result = self.task.cancel() if not self.task.done() else 'skipped'
+                self.stepper_cancelled += 1
+            elif kind == 'restep':
+                # somebody runs the process again
+                if self.task.done() and not proc.has_terminated():
+                    self.task = self.loop.create_task(proc.step_until_terminated())
+                    rec.result = True
+                else:
+                    rec.result = 'skipped'
             elif kind == 'callback':
                 fail = bool(action.get('fail'))
                 ident = f'late{index}'
